@@ -21,7 +21,9 @@ use std::process::Command;
 
 const ROWS_PER_LINE: usize = 256;
 /// quick-tier binaries (the thorough tier takes every `c04_*` binary of progs/)
-const QUICK_PROGS: &[&str] = &["c04_gen__1.89__o0", "c04_gen__stable__o1", "c04_inl__nightly__o1", "c04_inl__1.89__o0__d5", "c04_c__gcc"];
+/// (`c04_mu__*`: one source file spread over several compilation units — an rlib's generic/#[inline] code instantiated in the
+/// binary crate, the binary crate split into 16 codegen units)
+const QUICK_PROGS: &[&str] = &["c04_gen__1.89__o0", "c04_gen__stable__o1", "c04_inl__nightly__o1", "c04_c__gcc", "c04_mu__1.89__o0__d5", "c04_mu__stable__o1"];
 
 // ------------------------------------------------------------------------------------------------
 // independent decoder: llvm-dwarfdump / objdump text
@@ -405,9 +407,51 @@ fn gen_session(prog_name: &str, prog: &Path, oracle: &Oracle, rng: &mut Rng, n: 
     }
     for (&p, &maxl) in &user_files {
         for l in 0..=maxl + 2 { req.push(format!("C04 line {p} {l}")); w.count("gen.user_lines", 1); }
+        let in_units = dump.iter().filter(|u| u.rows.iter().any(|r| u.files.get(r.file_index as usize).map(|f| ids.path[f]) == Some(p))).count();
+        if in_units >= 2 { w.count("gen.multi_unit_line_queries.user", maxl + 3); }
         req.push(format!("C04 lrange {p} 0 {}", maxl + 1));
         for _ in 0..6 { let a = rng.below(maxl + 2); let b = rng.below(maxl + 2); req.push(format!("C04 lrange {p} {a} {b}")); }
     }
+    // --- source files whose rows are spread over SEVERAL units (generic / #[inline] code of a library instantiated in
+    // another crate, one crate split into several codegen units, std sources): the `line`/`line + 1` decision of a line
+    // breakpoint must be taken over all of them. Per file: which unit has an is_stmt row of which line (live code only).
+    let mut per_file: BTreeMap<usize, BTreeMap<usize, BTreeSet<u64>>> = BTreeMap::new();
+    for u in &dump {
+        for r in &u.rows {
+            if !r.is_stmt || r.end_sequence || r.address < oracle.text_lo { continue; }
+            let Some(p) = u.files.get(r.file_index as usize) else { continue };
+            per_file.entry(ids.path[p]).or_default().entry(u.idx).or_default().insert(r.line);
+        }
+    }
+    // classes of a line L of a multi-unit file (a line can be in several): its rows are in ONE unit / in SEVERAL units;
+    // some unit lacks L but has L+1 (the successor's rows live elsewhere); L-1 has no code in any unit (query L-1: global fallback)
+    let mut other_succ: Vec<(usize, u64)> = vec![];
+    let mut other_rest: Vec<(usize, u64)> = vec![];
+    for (&p, units) in per_file.iter().filter(|(_, m)| m.len() >= 2) {
+        let user = user_files.contains_key(&p);
+        let tag = if user { "user" } else { "other" };
+        w.count(&format!("gen.multi_unit_files.{tag}"), 1);
+        w.count(&format!("gen.multi_unit_files.{tag}.units_of_the_file.{}", match units.len() { 2 => "2", 3 => "3", 4..=7 => "4-7", _ => "8+" }), 1);
+        let all: BTreeSet<u64> = units.values().flatten().copied().collect();
+        for &l in &all {
+            let k = units.values().filter(|s| s.contains(&l)).count();
+            let succ_elsewhere = units.values().any(|s| !s.contains(&l) && s.contains(&(l + 1)));
+            let pred_empty = l > 0 && !all.contains(&(l - 1));
+            w.count(&format!("gen.multi_unit_lines.{tag}.{}", if k == 1 { "rows_in_one_unit" } else { "rows_in_several_units" }), 1);
+            if succ_elsewhere { w.count(&format!("gen.multi_unit_lines.{tag}.a_unit_without_the_line_has_the_next_line"), 1); }
+            if pred_empty { w.count(&format!("gen.multi_unit_lines.{tag}.previous_line_without_code"), 1); }
+            if user { continue; }   // every line of the user files is queried above
+            if succ_elsewhere { other_succ.push((p, l)); } else { other_rest.push((p, l)); }
+            if pred_empty { other_rest.push((p, l - 1)); }
+        }
+    }
+    let mut take = |v: &mut Vec<(usize, u64)>, cap: usize, rng: &mut Rng, what: &str, req: &mut Vec<String>, w: &mut WOut| {
+        // all of them when they fit, a seeded sample otherwise
+        if v.len() > cap { for i in 0..cap { let j = i + rng.below((v.len() - i) as u64) as usize; v.swap(i, j); } v.truncate(cap); w.count(&format!("gen.multi_unit_line_queries.{what}.sampled"), 1); }
+        for (p, l) in v.iter() { req.push(format!("C04 line {p} {l}")); w.count(&format!("gen.multi_unit_line_queries.{what}"), 1); }
+    };
+    take(&mut other_succ, 2 * n as usize, rng, "other.a_unit_without_the_line_has_the_next_line", &mut req, &mut w);
+    take(&mut other_rest, n as usize / 2, rng, "other.rest", &mut req, &mut w);
     // --- sampled (file, line) of the other units: a line with code, the line before it
     if !others.is_empty() {
         for _ in 0..n / 4 {
@@ -676,7 +720,11 @@ impl<'a> Sess<'a> {
                 (None, _) => "fn-breakpoint-not-resolved",
                 (Some(g), None) if !inside(g) => "fn-breakpoint-without-prologue-end-walks-out-of-function",
                 (Some(_), None) => "fn-breakpoint-not-at-an-instruction-row",
-                (Some(g), Some(_)) if !inside(g) => "fn-breakpoint-outside-function",
+                // a function breakpoint must lie inside the function's ranges. The recorded finding `fn-breakpoint-outside-function`
+                // is the class "an end_sequence row of another sequence sits at the function's low_pc"; outside that class
+                // (decided on llvm-dwarfdump's rows only) the same failure is a different, unrecorded one
+                (Some(g), Some(_)) if !inside(g) && o.tables.iter().any(|t| t.seqs.iter().any(|q| q.last().map(|r| r.addr) == Some(lo))) => "fn-breakpoint-outside-function",
+                (Some(g), Some(_)) if !inside(g) => "fn-breakpoint-outside-function-no-end-sequence-row-at-low-pc",
                 (Some(_), Some(_)) => "fn-breakpoint-not-at-first-prologue-end",
             };
             self.w.fail(key, format!("{}: function {:?} (DIE {:#x}, ranges {:x?}): breakpoint address {:x?}, first prologue_end row inside the function: {:x?}", self.prog, name, sub.off, sub.ranges, got, first_pe), self.replay(line));
@@ -745,7 +793,7 @@ fn ensure_progs() {
 }
 fn prog_list(thorough: bool) -> Vec<String> {
     if !thorough { return QUICK_PROGS.iter().map(|s| s.to_string()).collect(); }
-    let mut v: Vec<String> = std::fs::read_dir(root().join("progs")).map(|d| d.filter_map(|e| e.ok()?.file_name().into_string().ok()).filter(|n| n.starts_with("c04_")).collect()).unwrap_or_default();
+    let mut v: Vec<String> = std::fs::read_dir(root().join("progs")).map(|d| d.filter_map(|e| e.ok()?.file_name().into_string().ok()).filter(|n| n.starts_with("c04_") && root().join("progs").join(n).is_file()).collect()).unwrap_or_default();
     v.sort();
     v
 }
